@@ -36,6 +36,9 @@ RULE = ("random expression trees (depth <= 3 quick / <= 4 thorough) over UnitVal
         "system x dimension vectors with different space/time exponents x 6 operators both ways, first one member then the other) "
         "and a sequence stream (pools of 4-7 live operands, many in the same system, re-used over 5-15 operations incl. %, each "
         "result checked against the operands' creation data, every operand and the whole pool checked bit-unchanged); "
+        "plus an exact-number stream: every comparison operator, both operand orders, between a scalar quantity (magnitudes with "
+        "53-bit mantissas up to 2**173, powers of two, decimal 1e16..1e45, counts 2**53..2**63, any) and a Python int / Fraction "
+        "that is not a double and lies within one ulp of (or exactly on) the stored magnitude, or beyond the double range; "
         "a case is non-trivial when at least one quantity takes part; distinct by the whole tree / block / sequence")
 ASSUMPTIONS = [
     "IEEE-754 double arithmetic of CPython/numpy is within 1e-9 relative (to the magnitude of the added terms) of exact arithmetic for these short computations",
@@ -113,9 +116,10 @@ class Env:
         self.skips = []        # reasons
         self.nodes = []        # (op, pairing) evaluated
         self.experr = []
+        self.exactcmp = []     # quantity-number comparisons judged without float allowance: "tie" / "sub-ulp" / "far"
 
     def fresh(self):
-        self.findings, self.skips, self.nodes, self.experr = [], [], [], []
+        self.findings, self.skips, self.nodes, self.experr, self.exactcmp = [], [], [], [], []
 
     # ---- real objects
     def units(self, sys, dim):
@@ -134,6 +138,8 @@ class Env:
                 return bool(q)
             if py == "npf":
                 return self.np.float64(float(q))
+            if py == "frac":
+                return q            # a fractions.Fraction: a number (numbers.Rational) that need not be a double
             return float(q)
         if t == "val":
             u = node["x"]["u"]
@@ -627,10 +633,17 @@ def oracle_cmp(E, op, a, b, r, path, exact_ok):
     if not in_range(guard):
         E.skips.append("range")
         return
-    if x != y and abs(x - y) <= Fraction(1, 10 ** 6) * (abs(x) + abs(y)):
+    # a plain number takes the quantity's units: no conversion, no float operation is needed to compare it with the stored
+    # magnitude, and the number (Python int of any size, Fraction, float, bool, numpy.float64) denotes exactly one rational;
+    # so there is no float-error allowance here: the answer is the exact comparison, also within one ulp and on ties
+    num = a if ka == "num" else (b if kb == "num" else None)
+    exact_cmp = num is not None and isinstance(num, (bool, int, float, Fraction, E.np.float64))
+    if exact_cmp:
+        E.exactcmp.append("tie" if x == y else ("sub-ulp" if abs(x - y) <= Fraction(1, 10 ** 15) * (abs(x) + abs(y)) else "far"))
+    if not exact_cmp and x != y and abs(x - y) <= Fraction(1, 10 ** 6) * (abs(x) + abs(y)):
         E.skips.append("ambiguous")
         return
-    if x == y and not exact_ok:
+    if not exact_cmp and x == y and not exact_ok:
         E.skips.append("ambiguous")
         return
     want = {"eq": x == y, "ne": x != y, "lt": x < y, "le": x <= y, "gt": x > y, "ge": x >= y}[op]
@@ -1148,6 +1161,76 @@ def nearpow_cases(rng, reps):
 
 
 # ------------------------------------------------------------------------------------------------
+# comparisons of a scalar quantity with a plain number that is NOT a double: Python ints above 2**53 and fractions.Fraction
+# values that differ from the stored magnitude by less than one ulp (or not at all), and ints / Fractions beyond the double
+# range.  The number takes the quantity's units, so the SI comparison is the exact comparison of the number with the stored
+# magnitude; nothing needs rounding (Python compares float with int / Fraction exactly), so no float allowance applies.
+# ------------------------------------------------------------------------------------------------
+def _ulp(v):
+    """spacing of the doubles around |v| on the side away from zero, exact"""
+    return Fraction(math.ulp(abs(v)))
+
+
+def exactnum_values(rng):
+    """stored magnitudes by class: (class, double)"""
+    sg = lambda: rng.choice([1, 1, -1])   # noqa
+    out = [("mant53", sg() * float(rng.randint(2 ** 52, 2 ** 53 - 1) * 2 ** rng.randint(1, 120))),     # integer doubles above 2**53
+           ("pow2", sg() * 2.0 ** rng.randint(53, 140)),                                                # the ulp halves just below
+           ("dec", sg() * float(rng.randint(1, 99999) * 10 ** rng.randint(16, 40))),                    # 1e22, 6.02214e23, ... as written
+           ("count", sg() * float(rng.randint(2 ** 53, 2 ** 63))),                                      # molecule counts >= 9e15
+           ("int<2^53", sg() * float(rng.randint(1, 2 ** 53))),                                         # only Fractions are sub-ulp here
+           ("any", rand_float(rng))]                                                                    # any magnitude (1e-15 .. 1e15)
+    return out
+
+
+def exactnum_numbers(rng, v):
+    """plain numbers around the stored double `v`, every one an exact rational that is (mostly) not a double: (class, py, q)"""
+    V, u = Fraction(v), _ulp(v)
+    out = []
+    if V.denominator == 1 and u >= 1:
+        half = u / 2
+        ds = {1, -1, 3, -3, 0}
+        if half >= 1:
+            ds |= {int(half), -int(half), int(half) + 1, -int(half) - 1, int(half) - 1, 1 - int(half), int(u) - 1, 1 - int(u)}
+        if u >= 4:
+            ds |= {int(u / 4), -int(u / 4), rng.randint(1, int(half)), -rng.randint(1, int(half))}
+        for d in rng.sample(sorted(ds), min(5, len(ds))):
+            out.append(("int:tie" if d == 0 else "int:sub-ulp", "int", V + d))
+    # Fractions: a third / a seventh of an ulp off, a relative 1e-17 .. 1e-30 off, and the tie
+    for _ in range(2):
+        out.append(("frac:sub-ulp", "frac", V + rng.choice([1, -1]) * u * Fraction(rng.choice([1, 2, 3]), rng.choice([3, 7, 2 ** 40 + 1]))))
+    out.append(("frac:rel", "frac", V * (1 + rng.choice([1, -1]) * Fraction(1, 10 ** rng.randint(17, 30)))))
+    if rng.random() < 0.3:
+        out.append(("frac:tie", "frac", V))
+    # beyond the double range (either sign): still a number, still comparable exactly
+    r = rng.random()
+    if r < 0.35:
+        out.append(("int:huge", "int", Fraction(rng.choice([1, -1]) * (2 ** rng.randint(1024, 1100) + rng.randint(0, 10 ** 6)))))
+    elif r < 0.5:
+        out.append(("frac:huge", "frac", Fraction(rng.choice([1, -1]) * 10 ** rng.randint(309, 400), 3)))
+    elif r < 0.6:
+        out.append(("frac:tiny", "frac", Fraction(rng.choice([1, -1]), 3 * 10 ** rng.randint(330, 400))))
+    return out
+
+
+def exactnum_cases(rng, reps):
+    out = []
+    for rep in range(reps):
+        for cls, v in exactnum_values(rng):
+            sys, dim = rand_sys(rng), rand_dim(rng)
+            if rng.random() < 0.25:
+                sys, dim = (sys[0], sys[1], "molecule"), (0, 0, 1)      # a molecule count
+            q = {"k": "leaf", "t": "val", "x": {"v": rstr(v), "u": unitsj(sys, dim)}}
+            for ncls, py, n in exactnum_numbers(rng, v):
+                num = {"k": "leaf", "t": "num", "v": rstr(n), "py": py}
+                for op in CMPOPS:
+                    for left in (True, False):
+                        out.append({"e": q if left else num, "cmp": op, "b": num if left else q, "exact_ok": True,
+                                    "cls": cls + "/" + ncls})
+    return out
+
+
+# ------------------------------------------------------------------------------------------------
 # streams in ONE process: blocks of consecutive cases (`multi`) and sequences over a pool of live, re-used operands (`seq`)
 # ------------------------------------------------------------------------------------------------
 def run_multi(E, case):
@@ -1454,7 +1537,11 @@ def compare_model(ctx, case, got, r):
     if (lo != 0 and lo < LO) or hi > HI:
         return "skip:range"
     ambiguous = rparse(r["margin"]) < Fraction(1, 10 ** 6)
-    if "cmp_margin" in r and rparse(r["cmp_margin"]) < Fraction(1, 10 ** 6) and not (r.get("cmp_exact") and case.get("exact_ok")):
+    # a comparison of a quantity LEAF with a number LEAF: model and code hold the very same two rationals and the code needs no
+    # float operation to compare them (the number takes the quantity's units) -> the boolean is compared whatever the margin
+    leafcmp = ("cmp" in case and case["e"]["k"] == "leaf" and case["b"]["k"] == "leaf"
+               and sorted((case["e"]["t"], case["b"]["t"])) == ["num", "val"])
+    if "cmp_margin" in r and rparse(r["cmp_margin"]) < Fraction(1, 10 ** 6) and not (r.get("cmp_exact") and case.get("exact_ok")) and not leafcmp:
         ambiguous = True
     if ambiguous:
         # some node sits within float error of a discontinuity (floor of a % quotient, a comparison, a divisor that is zero up
@@ -1523,6 +1610,10 @@ def process(ctx, E, cases, label):
             ctx.count("oracle_skip_" + s)
         for s in E.experr:
             ctx.count("expected_error_" + s)
+        for s in E.exactcmp:
+            ctx.count("exact_number_cmp_" + s)
+        if case.get("cls"):
+            ctx.count("exactnum_" + case["cls"])
         ctx.count("oracle_nodes", len(E.nodes))
     res = [None] * len(cases)
     idx = [i for i, c in enumerate(cases) if "e" in c and not c.get("oracle_only")]      # the streams (multi / seq) are oracle only: the model is pure by construction
@@ -1600,6 +1691,11 @@ def run(ctx):
                      "of live re-used operands, results compared with exact SI arithmetic on the operands' creation data) and in the "
                      "collision stream (unit systems whose concatenated labels coincide, same other system and dimension vector, one "
                      "after the other). The streams are oracle only: the Lean model is pure by construction (no state to compare).")
+    ctx.notes.append("comparison of a quantity with a plain number (int of any size, Fraction, float, bool, numpy.float64): the number takes "
+                     "the quantity's units, so the SI comparison is the exact comparison of the number with the stored magnitude and needs no "
+                     "float operation; the oracle therefore applies NO closeness allowance to it (ties and sub-ulp differences are judged "
+                     "exactly; cmp_si covers every rational number operand). numpy integer scalars are not generated (numpy itself rounds "
+                     "them to double when compared with a float).")
     # 0. streams in one process: label collisions, sequences over re-used operands
     process(ctx, E, collision_cases(rng, ctx.n(12, 10 ** 6), ctx.n(2, 4)), "collision_blocks")
     process(ctx, E, seq_cases(rng, ctx.n(400, 8000)), "sequences")
@@ -1609,6 +1705,8 @@ def run(ctx):
     process(ctx, E, bigmod_cases(rng, ctx.n(12, 150)), "bigmod_cases")
     # 1a'. ** with exponents within 1e-10 … 2e-12 of one giving integer dimensions (must raise)
     process(ctx, E, nearpow_cases(rng, ctx.n(6, 80)), "nearpow_cases")
+    # 1a''. quantity vs plain number that is not a double (ints > 2**53, Fractions) within one ulp of the stored magnitude / beyond the double range
+    process(ctx, E, exactnum_cases(rng, ctx.n(4, 60)), "exactnum_cases")
     # 1b. operands built from ndarrays of dtype float32 / int32 / int64 / uint8
     process(ctx, E, dtype_cases(rng, ctx.n(2, 20)), "dtype_cases")
     # 2. random trees
@@ -1624,6 +1722,18 @@ def run(ctx):
     ctx.extra["oracle_skipped_fraction"] = round(amb / tot, 5)
     mskip = sum(v for k, v in ctx.stats.items() if k.startswith("model_skip_"))
     ctx.extra["model_skipped_fraction"] = round(mskip / max(1, ctx.evaluations), 5)
+
+
+def search(ctx):
+    """called when an obligation broke and no input failed yet: the special streams at thorough size (a change in the comparison /
+    operator methods shows on operands the quick sizes may not have drawn)"""
+    E = Env()
+    rng = ctx.rng
+    for gen, size, label in ((exactnum_cases, 40, "exactnum_cases"), (bigmod_cases, 60, "bigmod_cases"), (nearpow_cases, 40, "nearpow_cases"),
+                             (dtype_cases, 8, "dtype_cases")):
+        if ctx.violations or ctx.time_left() < 5:
+            break
+        process(ctx, E, gen(rng, size), label)
 
 
 def replay(ctx, rec):
